@@ -133,3 +133,38 @@ def instantiate(poly, pylabels):
     """universe polynomial over names L0.. -> python terms over the given labels"""
     m = {"L%d" % i: l for i, l in enumerate(pylabels)}
     return {tuple(m[x] for x in k): c for k, c in poly.items()}
+
+
+def scribble(obj):
+    """write into a returned object (whatever it is); a later identical call must not see it"""
+    try:
+        import numpy as np
+        if isinstance(obj, np.ndarray):
+            if obj.size:
+                obj.flat[0] += 7
+            return
+    except ImportError:
+        pass
+    if isinstance(obj, dict):
+        for key in (("__poked__",), (97,), "__poked__", 97):
+            try:
+                obj[key] = 7
+                return
+            except Exception:      # noqa
+                continue
+    elif isinstance(obj, list):
+        if obj and isinstance(obj[0], list) and obj[0]:
+            obj[0][0] += 7
+        obj.append(7)
+    elif isinstance(obj, tuple):
+        for o in obj:
+            scribble(o)
+
+
+def twice(f):
+    """call f, scribble into what it returned, call it again: the SECOND result is the one to judge"""
+    try:
+        scribble(f())
+    except Exception:      # noqa  (the second call reports what it raises)
+        pass
+    return f()
